@@ -179,11 +179,31 @@ func errShape(err error) string {
 	return "other"
 }
 
+// c09FailNextWrite fails the next WriteAt (before any effect) once armed.
+type c09FailNextWrite struct {
+	armed bool
+	fired int
+}
+
+func (h *c09FailNextWrite) Pre(d *simfs.Disk, c simfs.Call) error {
+	if h.armed && c.Kind == simfs.KWriteAt {
+		h.armed = false
+		h.fired++
+		return simfs.ErrInjected
+	}
+	return nil
+}
+func (h *c09FailNextWrite) Mid(*simfs.Disk, simfs.Call)        {}
+func (h *c09FailNextWrite) Post(*simfs.Disk, simfs.Call) error { return nil }
+
 // c09Workload runs a random workload and verifies the resulting files.
 func c09Workload(c *evid.Ctx, seed int64) {
 	rng := rand.New(rand.NewSource(seed))
 	seg := []int{256, 400, 512, 1024, 4096, 16384}[rng.Intn(6)]
 	real := rng.Intn(8) == 0
+	// on simfs, now and then a call's first write fails (nothing reaches the file): the call
+	// returns an error, is not acknowledged, and must leave no trace in the framing of later batches
+	fault := &c09FailNextWrite{}
 	var disk *simfs.Disk
 	var dir string
 	var w *wal.WAL
@@ -197,6 +217,7 @@ func c09Workload(c *evid.Ctx, seed int64) {
 		w, err = drv.OpenDir(dir, drv.Cfg{SegSize: seg})
 	} else {
 		disk = simfs.New(simfs.Strict)
+		disk.SetHook(fault)
 		w, err = drv.OpenSim(disk, drv.Cfg{SegSize: seg})
 	}
 	if err != nil {
@@ -226,7 +247,19 @@ func c09Workload(c *evid.Ctx, seed int64) {
 			}
 		}()
 	}
+	errInjected := fmt.Errorf("injected")
 	apply := func(op gen.Op) error {
+		if !real && rng.Intn(7) == 0 {
+			fault.armed = true
+			r := drv.Apply(w, op)
+			fired := !fault.armed
+			fault.armed = false
+			if fired && r.Err != nil {
+				c.Count("ops_failed_by_injected_write_error", 1)
+				return errInjected
+			}
+			return r.Err
+		}
 		r := drv.Apply(w, op)
 		if real {
 			r2 := drv.Apply(twin, op)
@@ -273,7 +306,10 @@ func c09Workload(c *evid.Ctx, seed int64) {
 				logs = append(logs, lg)
 				bt.Entries = append(bt.Entries, encPayload(lg))
 			}
-			if err := apply(gen.Op{Kind: "append", Logs: logs}); err != nil {
+			if err := apply(gen.Op{Kind: "append", Logs: logs}); err == errInjected {
+				ops = append(ops, fmt.Sprintf("append %d..%d FAILED(injected write error)", logs[0].Index, logs[k-1].Index))
+				continue
+			} else if err != nil {
 				c.Violation("C09:append-error", err.Error(), map[string]any{"seed": seed})
 				return
 			}
@@ -298,7 +334,10 @@ func c09Workload(c *evid.Ctx, seed int64) {
 				continue
 			}
 			mx := l.First + uint64(rng.Intn(int(min(5, l.Last-l.First))))
-			if err := apply(gen.Op{Kind: "delete", Min: l.First, Max: mx}); err != nil {
+			if err := apply(gen.Op{Kind: "delete", Min: l.First, Max: mx}); err == errInjected {
+				ops = append(ops, "delete-head FAILED(injected)")
+				continue
+			} else if err != nil {
 				c.Violation("C09:delete-error", err.Error(), nil)
 				return
 			}
@@ -310,7 +349,10 @@ func c09Workload(c *evid.Ctx, seed int64) {
 			}
 			mn := l.Last - uint64(rng.Intn(int(min(5, l.Last-l.First))))
 			before := twinDisk.MetaSnapshot().State
-			if err := apply(gen.Op{Kind: "delete", Min: mn, Max: l.Last}); err != nil {
+			if err := apply(gen.Op{Kind: "delete", Min: mn, Max: l.Last}); err == errInjected {
+				ops = append(ops, fmt.Sprintf("delete-tail %d..%d FAILED(injected write error in force seal)", mn, l.Last))
+				continue
+			} else if err != nil {
 				c.Violation("C09:delete-error", err.Error(), nil)
 				return
 			}
@@ -325,7 +367,10 @@ func c09Workload(c *evid.Ctx, seed int64) {
 			ops = append(ops, fmt.Sprintf("delete-tail %d..%d", mn, l.Last))
 			l.DeleteRange(mn, l.Last)
 		case x < 94:
-			if err := apply(gen.Op{Kind: "delete", Min: l.First, Max: l.Last}); err != nil {
+			if err := apply(gen.Op{Kind: "delete", Min: l.First, Max: l.Last}); err == errInjected {
+				ops = append(ops, "delete-all FAILED(injected)")
+				continue
+			} else if err != nil {
 				c.Violation("C09:delete-error", err.Error(), nil)
 				return
 			}
@@ -490,7 +535,7 @@ func c09Golden(c *evid.Ctx) {
 }
 
 func runC09(c *evid.Ctx) {
-	c.Rule("random workloads (appends of 1-4 entries with payload sizes over all 8 padding residues and entries larger than a segment, head/tail/all truncations incl. force-seals, base-index resets, reopens; six segment sizes; 1 in 8 on the real filesystem with BoltDB read directly through bbolt); afterwards every segment file is decoded by an independent implementation of the README layout, its batches must equal the acknowledged batches (grouping and codec payloads), header == file name == metadata, sealed <=> index frame in the last batch, IndexStart == index payload offset, index offsets == entry frame offsets, and the independent encoder must reproduce the file byte-for-byte up to the last commit with zeros after it; plus 12 golden directories written by the pinned commit that must open with identical contents, accept an append and reopen; non-trivial = distinct (batch size, index frame, sealed) shapes and golden directories",
+	c.Rule("random workloads (appends of 1-4 entries with payload sizes over all 8 padding residues and entries larger than a segment, head/tail/all truncations incl. force-seals, base-index resets, reopens, and calls whose first file write fails with an injected error (not acknowledged; later batches must be framed as if it never happened); six segment sizes; 1 in 8 on the real filesystem with BoltDB read directly through bbolt); afterwards every segment file is decoded by an independent implementation of the README layout, its batches must equal the acknowledged batches (grouping and codec payloads), header == file name == metadata, sealed <=> index frame in the last batch, IndexStart == index payload offset, index offsets == entry frame offsets, and the independent encoder must reproduce the file byte-for-byte up to the last commit with zeros after it; plus 12 golden directories written by the pinned commit that must open with identical contents, accept an append and reopen; non-trivial = distinct (batch size, index frame, sealed) shapes and golden directories",
 		"segment_files_checked", "batch_shapes")
 	c.Assume("README is read as: the first commit's CRC covers the file header too (bytes written since the file was created)", "the metadata bucket is named wal-meta (as in the property's anchors), the README text says wal-state")
 	n := 300
